@@ -79,14 +79,13 @@ Proof. vm_compute. repeat split; reflexivity. Qed.
    ++ --, calls f ( ) / f ( args ), subscripts and member access (compilePrecedence2's loop: call vs grouping
    parenthesis from the previous token, jump to the link of '(' and '[', '.' with compileScope).
    Premises: [wf e] (additionally: postfix ++/-- not directly on a postfix ++/--, the callee is not a number
-   or a postfix ++/-- expression - constraint violations in C and C++), [labels_ok e], and
-   [decl_like (render e) = false]: with calls a ')' can be followed by '(' , so the function-pointer-declaration
-   heuristic  X ) ( name ) =  of compileTerm is excluded explicitly (it only fires on an empty operand stack at
-   depth 0, which the invariant does not track).
+   or a postfix ++/-- expression - constraint violations in C and C++) and [labels_ok e].  (With calls a ')' can
+   be followed by '(' ; the function-pointer-declaration heuristic  X ) ( name ) =  of compileTerm still cannot
+   fire: it needs an empty operand stack, and inside call parentheses the callee is on the stack.)
    Missing for the full language: ?: (prepareTernaryOpForAST) and casts (iscast is not modelled). *)
 Theorem C07_parse_render_stage4_partial :
   forall (cpp : bool) (e : expr),
-    frag4 e = true -> wf e = true -> labels_ok e = true -> decl_like (render e) = false ->
+    frag4 e = true -> wf e = true -> labels_ok e = true ->
     parse cpp (render e) = Some (tree_of e).
 Proof. exact parse_render_stage4. Qed.
 Print Assumptions C07_parse_render_stage4_partial.
@@ -102,7 +101,7 @@ Example C07_stage4_premises :
              (EBin 0 BMul (EPost 0 QDec (EMem 0 0 (ECall 0 (EPar 0 (EId 0 9)) (EId 0 2)) 12))
                 (EPre 0 PInc (EPre 0 PDeref (EIdx 0 (EId 0 4) (EComma 0 (EId 0 0) (ENum 0 2))))))))
        (ECall 0 (ECall0 0 (EPar 0 (EPre 0 PDeref (EId 0 8)))) (EPre 0 PNot (EMem 0 0 (EId 0 6) 13)))) in
-  frag4 e = true /\ wf e = true /\ labels_ok e = true /\ decl_like (render e) = false /\
+  frag4 e = true /\ wf e = true /\ labels_ok e = true /\
   parse false (render e) = Some (tree_of e) /\ parse true (render e) = Some (tree_of e).
 Proof. vm_compute. repeat split; reflexivity. Qed.
 
@@ -118,7 +117,6 @@ Proof. vm_compute. repeat split; reflexivity. Qed.
 Theorem C07_parse_render_stage5_partial :
   forall (cpp : bool) (e : expr),
     frag5 e = true -> wf e = true -> labels_ok e = true -> mid_ok e = true -> plainmid e = true ->
-    decl_like (render e) = false ->
     parse cpp (render e) = Some (tree_of e).
 Proof. exact parse_render_stage5_syn. Qed.
 Print Assumptions C07_parse_render_stage5_partial.
@@ -135,7 +133,6 @@ Example C07_stage5_premises :
           (ECond 0 0 (EIdx 0 (EId 0 4) (ENum 0 0)) (EAsg 0 AEq (EId 0 5) (ECall 0 (EId 0 8) (ENum 0 1)))
              (ECond 0 0 (EPar 0 (EComma 0 (EId 0 0) (EId 0 1))) (ENum 0 3) (EPost 0 QInc (EMem 0 0 (EId 0 6) 11)))))) in
   frag5 e = true /\ wf e = true /\ labels_ok e = true /\ mid_ok e = true /\ plainmid e = true /\
-  decl_like (render e) = false /\
   parse false (render e) = Some (tree_of e) /\ parse true (render e) = Some (tree_of e).
 Proof. vm_compute. repeat split; reflexivity. Qed.
 
@@ -148,14 +145,13 @@ Print Assumptions C07_prep_render.
 
 (* PARTIAL (stage 6): every constructor of [expr] except casts, INCLUDING the middle operands of ?: around which
    prepareTernaryOpForAST inserts parentheses:  parse = createAst's ladder after prepareTernaryOpForAST.
-   Premises: [wf e], [labels_ok e] (no restriction: C07_labels_ok_canon),
-   [decl_like (renderP e) = false]: the  X ) ( name ) =  declaration heuristic of compileTerm does not occur in
-   the token list createAst sees.
+   Premises: only [wf e] (shapes that violate a constraint in C and C++: ++/-- on a prefix + - ! ~ & or on a
+   postfix ++/--, a number or a postfix ++/-- called as a function) and [labels_ok e] (no restriction:
+   C07_labels_ok_canon).
    Missing for the full language: casts (iscast is not modelled). *)
 Theorem C07_parse_render_stage6_partial :
   forall (cpp : bool) (e : expr),
     frag5 e = true -> wf e = true -> labels_ok e = true ->
-    decl_like (renderP e) = false ->
     parse cpp (render e) = Some (tree_of e).
 Proof. exact parse_render_stage6. Qed.
 Print Assumptions C07_parse_render_stage6_partial.
@@ -173,8 +169,7 @@ Example C07_stage6_premises :
           (ECond 0 0 (EId 0 1) (EComma 0 (ECond 0 0 (EId 0 2) (ENum 0 1) (ENum 0 2)) (ENum 0 3))
              (EAsg 0 AEq (EId 0 12) (ECond 0 0 (ENum 0 0) (ECall 0 (EId 0 8) (EComma 0 (EId 0 0) (EId 0 1))) (ENum 0 7))))))
        (ECond 0 0 (EId 0 2) (EAsg 0 AEq (EId 0 0) (EPar 0 (ECond 0 0 (EId 0 1) (ENum 0 1) (ENum 0 2)))) (EId 0 3))) in
-  frag5 e = true /\ wf e = true /\ labels_ok e = true /\ decl_like (renderP e) = false /\
-  plainmid e = false /\
+  frag5 e = true /\ wf e = true /\ labels_ok e = true /\ plainmid e = false /\
   parse false (render e) = Some (tree_of e) /\ parse true (render e) = Some (tree_of e).
 Proof. vm_compute. repeat split; reflexivity. Qed.
 
@@ -184,12 +179,13 @@ Theorem C07_labels_ok_canon : forall e : expr, labels_ok (canon e) = true.
 Proof. exact labels_ok_canon. Qed.
 Print Assumptions C07_labels_ok_canon.
 
-(* hence stage 5 for position-labelled expressions without the label premise *)
+(* hence, for position-labelled expressions (what the correspondence run evaluates): every well-formed
+   expression without casts *)
 Theorem C07_parse_render_canon_partial :
   forall (cpp : bool) (e0 : expr), let e := canon e0 in
-    frag5 e = true -> wf e = true -> mid_ok e = true -> plainmid e = true -> decl_like (render e) = false ->
+    frag5 e = true -> wf e = true ->
     parse cpp (render e) = Some (tree_of e).
-Proof. exact parse_render_canon. Qed.
+Proof. exact parse_render_canon6. Qed.
 Print Assumptions C07_parse_render_canon_partial.
 
 (* r = d + ( a * f ( b , c ) )   with every identifier a declared variable (f: a function pointer).
